@@ -584,6 +584,26 @@ def finding_docs():
     return out
 
 
+def witness_files(wd):
+    """(Coq name, bytes, description) of the real --qdf outputs used as witnesses in coq/File/C17Witness.v"""
+    out = []
+    docs = dict((n, d) for n, d in finding_docs())
+    for cname, key, opts in [("c17_w_endstream", "finding-endstream-line", ["--object-streams=disable"]),
+                             ("c17_w_marker", "finding-xref-text", ["--object-streams=disable"])]:
+        p = os.path.join(wd, key + ".pdf")
+        open(p, "wb").write(docs[key])
+        q = os.path.join(wd, cname + ".qdf")
+        common.run_qpdf(["--static-id", "--qdf"] + opts + [p, q])
+        out.append((cname, open(q, "rb").read() if os.path.exists(q) else b"", "qpdf --static-id --qdf %s %s.pdf (harness/c17.py finding_docs)" % (" ".join(opts), key)))
+    q = os.path.join(wd, "c17_w_nbe.qdf")
+    common.run_qpdf(["--static-id", "--qdf", "--object-streams=generate", "--newline-before-endstream", os.path.join(filecheck.CORPUS_DIR, "minimal.pdf"), q])
+    out.append(("c17_w_nbe", open(q, "rb").read() if os.path.exists(q) else b"", "qpdf --static-id --qdf --object-streams=generate --newline-before-endstream qpdf/qtest/qpdf/minimal.pdf"))
+    q = os.path.join(wd, "c17_w_plain.qdf")
+    common.run_qpdf(["--static-id", "--qdf", os.path.join(filecheck.CORPUS_DIR, "minimal.pdf"), q])
+    out.append(("c17_w_plain", open(q, "rb").read() if os.path.exists(q) else b"", "qpdf --static-id --qdf qpdf/qtest/qpdf/minimal.pdf"))
+    return out
+
+
 MODES = ["disable", "preserve", "generate"]
 SUBOPTS = [[], ["--no-original-object-ids"], ["--stream-data=preserve"], ["--normalize-content=n"], ["--newline-before-endstream"],
            ["--decode-level=none"], ["--preserve-unreferenced"], ["--coalesce-contents"], ["--min-version=1.7"], ["--compress-streams=y"],
@@ -840,6 +860,20 @@ def run(chk):
                         "file_b64": base64.b64encode(open(bp, "rb").read()).decode() if os.path.getsize(bp) < 60000 else None, "implementation": ist, "model": mst})
     chk.count("layout-breaking", len(bcases), nontriv, samples=[{"edit": c[2]} for c in bcases[:3]])
     chk.cov["parts"]["layout-breaking"]["outcomes"] = outcomes
+
+    # ---- the witnesses of the *_refuted / example theorems are what the qpdf under test writes
+    wv = open(os.path.join(common.COQ, "File", "C17Witness.v")).read()
+    stale = []
+    for cname, data, how in witness_files(wd):
+        m = re.search(r"Definition %s : list N :=\s*\[([0-9; ]*)\]" % cname, wv)
+        have = bytes(int(x) for x in m.group(1).split(";")) if m and m.group(1).strip() else None
+        if have != data:
+            stale.append({"witness": cname, "made_by": how, "bytes_in_Coq": None if have is None else len(have), "bytes_now": len(data)})
+    chk.count("theorem-witnesses", 4, [("witness", i) for i in range(4 - len(stale))])
+    if stale:
+        chk.violation({"kind": "correspondence-broken", "correspondence": "corr:C17:witness-files", "differing_cases": len(stale), "first_cases": stale,
+                       "note": "the byte strings the refutation/example theorems are stated on are no longer what `qpdf --qdf` writes for the "
+                               "same inputs (tools/gen_c17_witness.py regenerates them; the theorems then have to be re-checked)"}, no_input=True)
 
     if tie:
         chk.violation({"kind": "correspondence-broken", "correspondence": "corr:C17:fixqdf-line-machine", "differing_cases": len(tie), "first_cases": tie[:3],
